@@ -5,13 +5,15 @@
 //!   reported here *after* it happened,
 //! * a fault plan (thread-local): the read-side I/O calls made by recovery can be made to fail,
 //! * read-only projections of the internal state,
-//! * re-exports of the record / frame layers so that they can be driven over in-memory blocks.
+//! * re-exports of the record / frame layers so that they can be driven over in-memory blocks,
+//!   and of the rolling reader / writer so that they can be driven over real WAL files.
 use std::cell::RefCell;
 use std::io;
 
 pub use crate::block_read_write::VecBlockWriter;
 pub use crate::frame::{FrameReader, FrameWriter, ReadFrameError};
 pub use crate::recordlog::{RecordReader, RecordWriter};
+pub use crate::rolling::{RollingReader, RollingWriter};
 use crate::record::MultiPlexedRecord;
 use crate::Serializable;
 
